@@ -229,12 +229,97 @@ void check_session_c04(CaseResult &res, const std::vector<Pt<K>> &pts, const std
     (void) last_may_be_short;
 }
 
+/// "beyond 2^32" class (C03, thorough tier only: one case costs about a minute): more than 2^32 points fed to ONE sequential builder
+/// through the functor interface of make_segmentation (no array of that size exists in memory; keys are base + i*stride).  The
+/// recording hook stays off; coverage and residuals are checked on the segment boundaries and on sampled points of every segment.
+// (beyond32_mode() lives in common/engine.hpp: the dispatcher needs it too)
+
+template<typename K>
+CaseResult run_beyond32(const RunCtx &ctx, TapeReader &t) {
+    CaseResult res;
+    static const size_t epss[] = {0, 1, 4, 64, 1024};
+    const size_t eps = t.pick(epss);
+    const uint64_t n = (uint64_t(1) << 32) + 1 + t.below(5000);
+    const uint64_t base = t.bits(40);
+    const uint64_t stride = 1 + t.below(3);
+    const uint64_t sample_seed = t.bits(64);
+    if (ctx.want_desc) {
+        std::ostringstream d;
+        d << "layer=make_segmentation(functor) eps=" << eps << " key_type=" << type_name<K>() << " n=" << n << " keys = " << base << " + i*" << stride << " (beyond 2^32 points in one builder)";
+        res.desc = d.str();
+        res.xdata.emplace_back("xbeyond32", "1");
+    }
+    if (!ctx.execute) return res;
+    vf_set_threads(1);
+    std::vector<CS<K>> segs;
+    size_t count = 0;
+    try {
+        auto in = [&](size_t i) { return K(base + (uint64_t) i * stride); };
+        auto out = [&](const CS<K> &cs) { segs.push_back(cs); };
+        count = pgm::internal::make_segmentation((size_t) n, eps, in, out);
+    } catch (const std::exception &e) {
+        res.fail(std::string("make_segmentation threw on in-domain input: ") + e.what());
+        return res;
+    }
+    res.label("layer_beyond_2^32_points");
+    res.nontrivial = true;
+    res.sum("points", n);
+    if (count != segs.size() || segs.empty()) {
+        res.fail("returned segment count " + std::to_string(count) + " != emitted " + std::to_string(segs.size()));
+        return res;
+    }
+    // segment j covers the fed indices [start_j, start_{j+1})
+    std::vector<uint64_t> start;
+    for (size_t j = 0; j < segs.size(); ++j) {
+        uint64_t fx = (uint64_t) segs[j].get_first_x();
+        if (fx < base || (fx - base) % stride || (fx - base) / stride >= n) {
+            res.fail("segment #" + std::to_string(j) + " starts at key " + std::to_string(fx) + ", which is not one of the points fed");
+            return res;
+        }
+        uint64_t idx = (fx - base) / stride;
+        if (j == 0 && idx != 0) {
+            res.fail("the first segment starts at key " + std::to_string(fx) + " (point #" + std::to_string(idx) + "): the " + std::to_string(idx) +
+                     " points before it are covered by no segment");
+            return res;
+        }
+        if (j && idx <= start.back()) {
+            res.fail("segments are not in increasing first-key order at #" + std::to_string(j));
+            return res;
+        }
+        start.push_back(idx);
+    }
+    SplitMix pr(sample_seed);
+    long double worst = -1e30L;
+    for (size_t j = 0; j < segs.size() && res.ok; ++j) {
+        uint64_t a = start[j], b = j + 1 < segs.size() ? start[j + 1] : n; // [a, b)
+        std::vector<Pt<K>> pts;
+        auto add = [&](uint64_t i) { pts.push_back({K(base + i * stride), (size_t) i}); };
+        add(a);
+        if (b - a > 1) add(b - 1);
+        for (int s = 0; s < 3 && a + 1 + s < b; ++s) add(a + 1 + s);
+        size_t samples = segs.size() > 1000 ? 4 : 2000;
+        for (size_t s = 0; s < samples && b - a > 2; ++s) add(a + pr.below(b - a));
+        for (uint64_t p2 = uint64_t(1) << 31; p2 < b; p2 <<= 1) // around the powers of two of the point counter
+            for (int dlt = -2; dlt <= 2; ++dlt)
+                if (p2 + dlt >= a && p2 + dlt < b) add(p2 + dlt);
+        if (pts.size() == 1 || true) {
+            // check_residuals handles the one-point special form only when exactly one point is passed
+            std::string err = (b - a == 1) ? check_residuals<K>(segs[j], pts.data(), 1, eps, worst) : check_residuals<K>(segs[j], pts.data(), pts.size(), eps, worst);
+            if (!err.empty()) res.fail("segment #" + std::to_string(j) + " (points " + std::to_string(a) + ".." + std::to_string(b - 1) + "): " + err);
+        }
+    }
+    res.sum("segments", segs.size());
+    return res;
+}
+
 template<typename K>
 CaseResult run_seg(const RunCtx &ctx, TapeReader &t, unsigned size_hint) {
     using OPLM = pgm::internal::OptimalPiecewiseLinearModel<K, size_t>;
     CaseResult res;
     const bool c03 = ctx.prop == "C03", c04 = ctx.prop == "C04";
     constexpr bool is_fp = std::is_floating_point_v<K>;
+    if constexpr (sizeof(K) == 8 && std::is_unsigned_v<K>)
+        if (beyond32_mode(ctx)) return run_beyond32<K>(ctx, t);
 
     // epsilon: 0..1024 biased to 0..4
     static const unsigned ew[] = {5, 3, 2};
